@@ -3,7 +3,11 @@
 Require Extraction.
 Require Import ExtrOcamlBasic.
 From QV.Enc Require EncModel EncSpec.
+From QV.Base Require Word.
+From QV.HashFn Require FnvModel MurmurModel Md5Model FnvSpec MurmurSpec Md5Spec.
 Extraction Blacklist List String Int.
 Extraction "../ocaml/gen/model.ml" EncModel.url_encode EncModel.url_dec_buf EncModel.url_decode EncModel.hex_encode EncModel.hex_dec_buf EncModel.hex_decode
    EncModel.b64_encode EncModel.b64_dec_buf EncModel.b64_decode EncModel.parse_queries EncModel.join_query EncModel.makeword EncModel.trim
-   EncSpec.rfc4648 EncSpec.hex_spec EncSpec.url_safe.
+   EncSpec.rfc4648 EncSpec.hex_spec EncSpec.url_safe
+   FnvModel.qhashfnv1_32 FnvModel.qhashfnv1_64 MurmurModel.qhashmurmur3_32 MurmurModel.qhashmurmur3_128 Md5Model.qhashmd5 Md5Model.qhashmd5_file
+   FnvSpec.fnv1_32 FnvSpec.fnv1_64 MurmurSpec.murmur3_x86_32 MurmurSpec.murmur3_x64_128 Md5Spec.md5 Word.le_bytes.
